@@ -192,6 +192,25 @@ def run_case(ctx, g, rng):
             call(res.compress, r.uri_prefix + "1")
             for p in spec.all_p(r):
                 call(res.expand, p + d + "1")
+        if g % 3 == 0:
+            # a second remapping of the RESULT, keyed by the names the first one introduced and by the names it turned
+            # into synonyms - judged on its own against the result's records; and a remapping of a converter that came
+            # out of a URI-side reconciliation
+            recs2 = list(spec.snapshot(res))
+            introduced = [v for v in m.values() if any(v in spec.all_p(r) for r in recs2)]
+            demoted = [k for k in m if any(k in r.psyn for r in recs2)]
+            m2 = {}
+            for j, k2 in enumerate(dict.fromkeys(introduced[:2] + demoted[:1])):
+                if d not in k2:
+                    m2[k2] = f"zzsecond{j}"
+            if m2:
+                S.counters["wl:second-call-on-a-result"] += 1
+                call(curies.remap_curie_prefixes, res, m2)
+            if recs2:
+                r2 = rng.choice(recs2)
+                o2 = call(curies.rewire, res, {r2.prefix: "http://zz.second/"})
+                if o2[0] == "ret":
+                    call(curies.remap_curie_prefixes, o2[1], {r2.prefix: "zzthird", **({r2.psyn[0]: "zzfourth"} if r2.psyn else {})})
     if g % 499 == 0:
         probe.sample({"records": [spec.rec_dict(r) for r in recs], "remapping": m,
                       "result": [spec.rec_dict(r) for r in spec.snapshot(o[1])] if o[0] == "ret" else outcome,
